@@ -75,7 +75,10 @@ def symmetry_sweep(chk, cap):
     the same-position-insertion carve-out).  The sweep only selects what TLC looks at; it decides nothing."""
     import multiprocessing
     from .corpus import enumerate_edits, _bucket
-    tr = [t for t in enumerate_edits(1, 1) if "same" in _bucket(t)]
+    def both_notebook_level(t):
+        eds = [h["edit"] for h in t.get("hist") or []]
+        return len(eds) == 2 and all(e.get("pos", e.get("from")) is None for e in eds)
+    tr = [t for t in enumerate_edits(1, 1) if "same" in _bucket(t) or both_notebook_level(t)]
     with multiprocessing.get_context("fork").Pool(common.NCPU) as pool:
         flags = pool.map(_screen, tr, chunksize=64)
     cand = [t for t, f in zip(tr, flags) if f]
